@@ -200,6 +200,9 @@ func (c *ClusterInfo) GetLookupdProducers(lookupdHTTPAddrs []string) (Producers,
 			lock.Lock()
 			defer lock.Unlock()
 			for _, producer := range resp.Producers {
+				if producer == nil {
+					continue
+				}
 				key := producer.TCPAddress()
 				p, ok := producersByAddr[key]
 				if !ok {
@@ -587,6 +590,9 @@ func (c *ClusterInfo) GetNSQDStats(producers Producers,
 			lock.Lock()
 			defer lock.Unlock()
 			for _, topic := range resp.Topics {
+				if topic == nil {
+					continue
+				}
 				topic.Node = addr
 				topic.Hostname = p.Hostname
 				topic.MemoryDepth = topic.Depth - topic.BackendDepth
@@ -597,6 +603,9 @@ func (c *ClusterInfo) GetNSQDStats(producers Producers,
 				topicStatsList = append(topicStatsList, topic)
 
 				for _, channel := range topic.Channels {
+					if channel == nil {
+						continue
+					}
 					channel.Node = addr
 					channel.Hostname = p.Hostname
 					channel.TopicName = topic.TopicName
@@ -615,11 +624,17 @@ func (c *ClusterInfo) GetNSQDStats(producers Producers,
 						}
 						channelStatsMap[key] = channelStats
 					}
+					clients := channel.Clients[:0]
 					for _, c := range channel.Clients {
+						if c == nil {
+							continue
+						}
 						c.Node = addr
 						c.NodeTopologyRegion = p.TopologyRegion
 						c.NodeTopologyZone = p.TopologyZone
+						clients = append(clients, c)
 					}
+					channel.Clients = clients
 					channelStats.Add(channel)
 				}
 			}
